@@ -69,7 +69,11 @@ impl Engine for WorldEngine {
         let b0 = bytes.first().copied().unwrap_or(0);
         let profile = self.pick_profile(b0);
         let rest = if bytes.is_empty() { bytes } else { &bytes[1..] };
-        WCase { profile, sc: scn::decode(profile, rest, self.max_steps) }
+        let mut sc = scn::decode(profile, rest, self.max_steps);
+        if !scn::TEARDOWN_PROPS.contains(&self.prop) {
+            scn::strip_teardown(&mut sc);
+        }
+        WCase { profile, sc }
     }
     fn eval(&self, case: &WCase) -> Outcome {
         let h = world::run(&case.sc);
@@ -267,6 +271,7 @@ pub fn world_engine(prop: &str, thorough: bool) -> Option<WorldEngine> {
                 (Profile::ShareNested, 8),
                 (Profile::ShareCross, 5),
                 (Profile::Indep, 10),
+                (Profile::Refuse, 6),
             ],
             max_steps,
             oracle: |cx, _| oracle::c05(cx),
